@@ -73,6 +73,10 @@ class C15(Prop):
                           ("t = 0; foreach $v in [1, 2] { $v++; t = t + v; } return t;", 5), ("function f($p) { $p++; return $p + p; } a = 2; return [f(a), a];", [6, 2]),
                           ("function g() { local $l; $l = 5; l++; return $l; } return g();", 6), ("$q = 1.5; $q *= 2; return q;", 3.0)]:
             out.append(case(src, [enc_value(want)], "dollar-names"))
+        # ... and so does a variable written in redundant parentheses (D43 repaired)
+        for src, want in [("x = 1; (x)++; return x;", 2), ("x = 5; y = x; ((x))--; return [x, y];", [4, 5]), ("function f() { local q; q = 70000; (q)++; return q; } return [f(), f()];", [70001, 70001]),
+                          ("t = 0; foreach v in [1, 2] { (v)++; t = t + v; } return t;", 5)]:
+            out.append(case(src, [enc_value(want)], "parenthesised-postfix"))
         # strings and booleans
         out.append(case('a = "x"; b = a; b += "y"; return [a, b];', [enc_value(["x", "xy"])], "string"))
         out.append(case('a = "x"; b = a; b = b + "y"; return [a, b, "x"];', [enc_value(["x", "xy", "x"])] * 2, "string", runs=2))
